@@ -833,6 +833,45 @@ def suite_attach(ctx, d, pgpy, specs):
                     check_packet(ctx, d, 'attach', sk._key, {'op': 'attach', 'alg': alg, 'size': str(size), 'stage': 'attached'})
 
 
+SHORT_P256 = 91361591590547194785196119551896254182830373032931431425859153704913422683124      # k with x(kG), y(kG) < 2^248 on NIST P-256
+
+
+def suite_short_coordinates(ctx, d, pgpy):
+    """EC keys whose affine coordinates start with zero octets (both, for the scalar above; the point is still written at full width,
+    RFC 6637 6): secret packet written by an independent encoder; fingerprint of the key, its twin, copies and re-imports = RFC value,
+    exported public body = the encoder's body"""
+    from cryptography.hazmat.primitives.asymmetric import ec
+    def mpi(i): return i.bit_length().to_bytes(2, 'big') + i.to_bytes((i.bit_length() + 7) // 8, 'big')
+    oid = bytes.fromhex('2a8648ce3d030107')
+    for alg, extra in ((19, b''), (18, bytes([3, 1, 8, 7]))):
+        for scalar in (SHORT_P256, int.from_bytes(hashlib.sha256(b'c18-control').digest(), 'big')):
+            pn = ec.derive_private_key(scalar, ec.SECP256R1()).public_key().public_numbers()
+            point = b'\x04' + pn.x.to_bytes(32, 'big') + pn.y.to_bytes(32, 'big')
+            pub = b'\x04' + (1500000000).to_bytes(4, 'big') + bytes([alg, len(oid)]) + oid + mpi(int.from_bytes(point, 'big')) + extra
+            sec = mpi(scalar)
+            secbody = pub + b'\x00' + sec + (sum(sec) % 65536).to_bytes(2, 'big')
+            pkt = bytes([0xc5, len(secbody)]) + secbody
+            want = rfc_fp(pub)
+            case = {'op': 'shortxy', 'alg': alg, 'pkt': pkt.hex(), 'x_octets': (pn.x.bit_length() + 7) // 8, 'y_octets': (pn.y.bit_length() + 7) // 8}
+            ctx.case('short-coordinates', (alg, scalar), sample={'alg': alg, 'x_octets': case['x_octets'], 'y_octets': case['y_octets']})
+            def forms():
+                k = pgpy.PGPKey.from_blob(pkt)[0]
+                tw = k.pubkey
+                out = {'key': k, 'copy': copy.copy(k), 'twin': tw, 'copy of twin': copy.copy(tw), 'copy of copy': copy.copy(copy.copy(k)),
+                       're-import of twin': pgpy.PGPKey.from_blob(bytes(tw))[0], 're-import of copy': pgpy.PGPKey.from_blob(bytes(copy.copy(k)))[0]}
+                return {n: (str(o.fingerprint).replace(' ', '').lower(), split_packets(bytes(o.pubkey if not o.is_public else o))[0][1].hex()) for n, o in out.items()}
+            with warnings.catch_warnings():
+                warnings.simplefilter('ignore')
+                o = outcome(forms)
+            if o[0] != 'ok':
+                ctx.fail('short-coordinates', 'EC key with short coordinates cannot be loaded / copied / exported', dict(case, impl=repr(o)[:300])); continue
+            badf = {n: v[0] for n, v in o[1].items() if v[0] != want}
+            badb = [n for n, v in o[1].items() if v[1] != pub.hex()]
+            if badf or badb:
+                ctx.fail('short-coordinates', 'fingerprint / exported public body of an EC key with short coordinates changes under copy / twin / re-import',
+                         dict(case, rfc=want, wrong_fingerprints=badf, wrong_bodies=badb))
+
+
 def suite_opaque(ctx, d, pgpy):
     """algorithm ids PGPy has no material class for (0, 21).  PUBLIC keys: full property (RFC fingerprint of the whole body, repair
     e03112d; fingerprint and export octets unchanged by copy.copy / export + import / PGPKey.pubkey, repair 3c1c8c6).
@@ -1035,6 +1074,7 @@ def run(ctx):
         suite_fresh(ctx, d, pgpy, fresh)
         suite_opaque(ctx, d, pgpy)
         suite_secret_layout(ctx, d, pgpy, [n for n in names if n in (('dsa1024', 'rsa1024', 'ed25519') if q else ('dsa1024', 'dsa2048', 'rsa1024', 'rsa2048', 'ed25519', 'p256', 'p384'))])
+        suite_short_coordinates(ctx, d, pgpy)
         suite_rsa_ids(ctx, d, pgpy, [n for n in names if n in (('rsa1024',) if q else ('rsa1024', 'rsa2048', 'rsa3072'))])
         suite_attach(ctx, d, pgpy, [('EdDSA', 'Ed25519'), ('ECDH', 'Curve25519'), ('ECDSA', 'NIST_P256')] + ([] if q else [('ECDH', 'NIST_P384'), ('RSAEncryptOrSign', 2048)]))
         suite_gpg(ctx, d, pgpy, [n for n in names if n in ('ed25519', 'p256', 'rsa1024')] if q else names)
